@@ -10,7 +10,15 @@ def run_impl(harness_bin, lines, workdir, tag='cases'):
         f.write('\n'.join(lines) + '\n')
     p = subprocess.run([harness_bin, cases], stdout=subprocess.PIPE, stderr=subprocess.PIPE, timeout=3600)
     if p.returncode != 0:
-        raise build.BuildError('harness crashed (rc=%d)' % p.returncode, p.stderr.decode('utf-8', 'replace')[-2000:])
+        # the process died (abort, stack overflow, ...): the case it was running is the first one without a trace line
+        done = set()
+        for line in p.stdout.decode('utf-8', 'replace').split('\n'):
+            if line.startswith('T '):
+                done.add(line[2:line.index(' ', 2)] if ' ' in line[2:] else line[2:])
+        culprit = next((l for l in lines if l.split(' ')[0] != 'PR' and len(l.split(' ')) > 1 and l.split(' ')[1] not in done), None)
+        e = build.BuildError('harness process died (rc=%d) while running a case' % p.returncode, p.stderr.decode('utf-8', 'replace')[-2000:])
+        e.case = culprit
+        raise e
     mlines, traces = [], {}
     for line in p.stdout.decode().split('\n'):
         if line.startswith('M '):
